@@ -523,8 +523,8 @@ REAL_CASES = (
     ('PRE_PROCESS_ERROR', '[assert]\nexit-code == 0\n', 10, '[conf]\npreprocessor = false\n'),
     ('SYNTAX_ERROR', '[setup]\nnosuchinstruction\n', 11, ''),
     ('unreadable (not UTF-8)', b'\xff\xfe[assert]\n', 9, ''),  # FILE_ACCESS_ERROR since fix 6de5e53 (INTERNAL_ERROR before)
-    ('HARD_ERROR whose message holds a control character (stderr of a failing program)',
-     "[setup]\n$ printf 'e\\001r' >&2; exit 1\n", 6, ''),
+    ('VALIDATION_ERROR whose message holds a control character (quoted from the case file)',
+     '[setup]\ncopy non-existing-\x01file\n', 5, ''),
 )
 K3_ACT_SYNTAX_ERROR = 7  # index into REAL_CASES
 K3_CONTROL_CHARACTER = 12  # index into REAL_CASES
